@@ -88,11 +88,12 @@ def get_combinations_from_columns(all_columns: pd.Index, args: Any) -> list[tupl
             combinations = list(_combinations)
 
     if args.target_ranking_only != 'True':
-        # Diagonal elements (non-label)
+        # Diagonal elements (non-label); 3MR relation features are paired with the label only
         combinations += [
             (individual_column, individual_column)
             for individual_column in all_columns
             if individual_column != args.label_column
+            and not ('3mr' in args.heuristic and ' AND_REL ' in individual_column)
         ]
     return combinations
 
